@@ -315,3 +315,21 @@ pub fn split_transfer(
     crate::frames::amqp::split_transfer(transfer, payload, max_frame_body_size)
         .map_err(|e| e.to_string())
 }
+
+/// Delivery-tags a sender still holds in its unsettled map
+pub fn sender_unsettled_tags(sender: &crate::Sender) -> Vec<Vec<u8>> {
+    let guard = sender.inner.link.unsettled.read();
+    guard
+        .as_ref()
+        .map(|m| m.keys().map(|tag| tag.to_vec()).collect())
+        .unwrap_or_default()
+}
+
+/// Delivery-tags a receiver still holds in its unsettled map
+pub fn receiver_unsettled_tags(receiver: &crate::Receiver) -> Vec<Vec<u8>> {
+    let guard = receiver.inner.link.unsettled.read();
+    guard
+        .as_ref()
+        .map(|m| m.keys().map(|tag| tag.to_vec()).collect())
+        .unwrap_or_default()
+}
